@@ -14,7 +14,7 @@ ID = "C10"
 RULE = ("Genomes of 1..4 chromosomes with sizes 1..S, with names where one is a prefix of another (chr1, chr10) and optionally one with an "
         "underscore (ignored by default, kept under keep_all), in an order where the underscore name need not be last. Interval and location sets "
         "per chromosome with emphasis on an interval ending exactly at a chromosome end followed by one starting at position 0 of the next, and "
-        "on chromosomes without entries; entries are given in arbitrary order. Operations: get_mask, get_pileup, sorted, merged(d), clip, "
+        "on chromosomes without entries; entries are given in arbitrary order. Operations: get_mask, get_pileup (also through the streamed per-chromosome evaluation of the sorted entries in two chunks), sorted, merged(d), clip, "
         "extended_to_size, get_location(start|stop|center), GenomicLocation.get_windows, GenomicArray[intervals] (reversed on '-'), "
         "GenomicSequence[intervals] through the dict backend and through an indexed FASTA written to disk (reverse complement on '-'), the "
         "Geometry helpers, and GlobalOffset conversions. Oracles: (a) the result for chromosome c equals the single-contig model applied to "
@@ -142,6 +142,33 @@ def check(case, stats=None):
             if got != exp:
                 out.append(Failure(f"C10:{what}", {"chromosome": n, "expected": exp, "actual": got}))
                 break
+    if out:
+        return out[:1]
+
+    # --- the same pileup through the streamed (per-chromosome) evaluation ------------------------------
+    from bionumpy.streams import NpDataclassStream
+    from bionumpy.datatypes import Interval as _Interval
+    in_order = sorted(((c, a, b) for c, a, b, s in ivs), key=lambda t: (names.index(t[0]), t[1], t[2]))
+    if in_order:
+        cut = case.get("L", 1) % (len(in_order) + 1)
+        chunks = [x for x in (in_order[:cut], in_order[cut:]) if x]
+
+        def streamed_pileup():
+            st_ = NpDataclassStream(iter([_Interval([r_[0] for r_ in ch], np.array([r_[1] for r_ in ch], dtype=int), np.array([r_[2] for r_ in ch], dtype=int))
+                                          for ch in chunks]), dataclass=_Interval)
+            data = bnp.compute(genome.get_intervals(st_).get_pileup().get_data())
+            return list(zip(_names(data.chromosome, names), data.start.tolist(), data.stop.tolist(), np.asarray(data.value).tolist()))
+        recs = guard("streamed get_pileup", streamed_pileup)
+        if recs is not None:
+            for n in names:
+                dense = [0] * sizes[n]
+                for _, s0, e0, v0 in [r_ for r_ in recs if r_[0] == n]:
+                    for p_ in range(s0, e0):
+                        dense[p_] = v0
+                cov = c08.cover([(a, b) for a, b, s in per[n]], sizes[n])
+                if dense != cov or not any(r_[0] == n for r_ in recs):
+                    out.append(Failure("C10:streamed-pileup", {"chromosome": n, "expected": cov, "records": [r_ for r_ in recs if r_[0] == n]}))
+                    break
     if out:
         return out[:1]
 
